@@ -2,12 +2,12 @@ package main
 
 import (
 	"bytes"
-	"runtime"
 	"context"
 	"fmt"
 	"os"
 	"os/exec"
 	"path/filepath"
+	"runtime"
 	"sort"
 	"strings"
 	"sync"
@@ -21,22 +21,22 @@ var smtBuiltins = map[string]bool{
 }
 
 type smtBuilder struct {
-	w        *World
-	ex       *Exec
-	declMap  map[string]*Decl
-	needDecl map[string]bool
-	specUsed map[string]*SpecDef
+	w         *World
+	ex        *Exec
+	declMap   map[string]*Decl
+	needDecl  map[string]bool
+	specUsed  map[string]*SpecDef
 	specOrder []string
-	unint    map[string]string // name -> declaration
-	consts   map[string]*Sort
-	recInst  []*Term
-	instSeen map[string]bool
-	ufmul    bool
-	memo     map[*Term]*Term
-	ownDepth map[string]int
-	foralls  []*Term
-	fseen    map[*Term]bool
-	reveal   map[string]bool
+	unint     map[string]string // name -> declaration
+	consts    map[string]*Sort
+	recInst   []*Term
+	instSeen  map[string]bool
+	ufmul     bool
+	memo      map[*Term]*Term
+	ownDepth  map[string]int
+	foralls   []*Term
+	fseen     map[*Term]bool
+	reveal    map[string]bool
 }
 
 func (sb *smtBuilder) pr(t *Term) string {
@@ -561,11 +561,11 @@ func (o *Obligation) smtMode(w *World, extraAsserts []*Term, getValues []*Term, 
 // ---------------------------------------------------------------- running solvers
 
 type SolveResult struct {
-	Status  string // unsat, sat, unknown, timeout, error
-	Solver  string
-	Time    float64
-	Output  string
-	File    string
+	Status string // unsat, sat, unknown, timeout, error
+	Solver string
+	Time   float64
+	Output string
+	File   string
 }
 
 type solverSpec struct {
@@ -582,7 +582,9 @@ var z3ematch = solverSpec{"z3-new(ematch)", func(f string, t int) []string {
 var solvers = []solverSpec{
 	{"z3-new", func(f string, t int) []string { return []string{"z3-new", fmt.Sprintf("-t:%d", t), f} }},
 	{"z3", func(f string, t int) []string { return []string{"z3", fmt.Sprintf("-t:%d", t), f} }},
-	{"cvc5", func(f string, t int) []string { return []string{"cvc5", fmt.Sprintf("--tlimit=%d", t), "--produce-models", f} }},
+	{"cvc5", func(f string, t int) []string {
+		return []string{"cvc5", fmt.Sprintf("--tlimit=%d", t), "--produce-models", f}
+	}},
 }
 
 // procSem bounds the number of solver processes running at once (the timeout clock of a
@@ -793,10 +795,10 @@ func solveOne(w *World, o *Obligation, dir string, timeoutMs int) *OblResult {
 	}
 	t0 := time.Now()
 	type variant struct {
-		file   string
-		sp     solverSpec
-		label  string
-		full   bool // a sat answer is meaningful only for the unabstracted text
+		file  string
+		sp    solverSpec
+		label string
+		full  bool // a sat answer is meaningful only for the unabstracted text
 	}
 	var ufile, wfile string
 	if o.ufSMT != "" {
